@@ -269,7 +269,7 @@ class SymExec:
                 if any(same(v, l_) for l_ in labs if not isinstance(l_, str)):
                     return run_from(k_, st)
             for k_, (labs, _) in enumerate(items):
-                if "default" in labs:
+                if any(isinstance(l_, str) for l_ in labs):
                     return run_from(k_, st)
             return [st]
         out = []
@@ -287,7 +287,7 @@ class SymExec:
         rest.conds.append(("%s==<no label>" % ctext, True))
         rest.cvals.append(("%s==<no label>" % ctext, True))
         rest.cexprs.append((None, True))
-        dk = next((k_ for k_, (labs, _) in enumerate(items) if "default" in labs), None)
+        dk = next((k_ for k_, (labs, _) in enumerate(items) if any(isinstance(l_, str) for l_ in labs)), None)
         out += run_from(dk, rest) if dk is not None else [rest]
         return out
 
